@@ -21,7 +21,17 @@ func Hash(data interface{}) string {
 
 func IsHash(str string) bool {
 	bytes, err := hex.DecodeString(str)
-	return err == nil && len(bytes) == HASH_LENGTH
+	if err != nil || len(bytes) != HASH_LENGTH {
+		return false
+	}
+	// only the canonical lower-case form is a hash: ids are used verbatim as state trie paths,
+	// and the trie does not treat "AB.." and "ab.." as the same path
+	for i := 0; i < len(str); i++ {
+		if str[i] >= 'A' && str[i] <= 'F' {
+			return false
+		}
+	}
+	return true
 }
 
 //EmptyHash - hash of an empty string
